@@ -255,6 +255,8 @@ type c01cfg struct {
 	k         int
 	seed      uint64
 	procs     int
+	raw       int
+	hasRaw    bool
 }
 
 type c01obs struct {
@@ -431,6 +433,10 @@ func c01case(s *Sexp) string {
 			cfg.construct = a.List[1].Atom
 		case "workers":
 			cfg.workers = a.List[1].Int()
+		case "rawworkers":
+			// the worker count is installed through WorkerGroupConfSet as written (possibly < 1: the
+			// configuration's Validate turns every value below 1 into 1, so the run is a 1-worker run)
+			cfg.raw, cfg.hasRaw = a.List[1].Int(), true
 		case "buf":
 			cfg.buf = a.List[1].Int()
 		case "input":
@@ -561,13 +567,20 @@ func blocked(cfg *c01cfg, o *c01obs, it *fun.Iterator[int], ctx context.Context,
 	}
 }
 
+func c01workersOpt(cfg *c01cfg) fun.OptionProvider[*fun.WorkerGroupConf] {
+	if cfg.hasRaw {
+		return fun.WorkerGroupConfSet(&fun.WorkerGroupConf{NumWorkers: cfg.raw})
+	}
+	return fun.WorkerGroupConfNumWorkers(cfg.workers)
+}
+
 func c01run(cfg *c01cfg, o *c01obs, ctx context.Context, cancel context.CancelFunc) {
 	block := cfg.behaviour == "blockedclose" || cfg.behaviour == "blockedcancel"
 	n := cfg.workers
 	if n < 1 {
 		n = 1
 	}
-	nw := fun.WorkerGroupConfNumWorkers(cfg.workers)
+	nw := c01workersOpt(cfg)
 
 	if block {
 		switch cfg.construct {
@@ -788,7 +801,7 @@ func processParallel(cfg *c01cfg, o *c01obs, ctx context.Context, cancel context
 		n = 1
 	}
 	o.slots(1)
-	nw := fun.WorkerGroupConfNumWorkers(cfg.workers)
+	nw := c01workersOpt(cfg)
 	var mu sync.Mutex
 	var seen []int
 	proc := func(_ context.Context, x int) error {
